@@ -49,7 +49,7 @@ def gen_state(rng):
     with quiet():
         ub = UBCalculation(rng.choice(["ub", "my calc", "x" * 3]))
         lat = rng.choice(LATT)
-        prov = rng.choice(["none", "set_u", "set_ub", "ub_then_lattice", "calc_ub", "miscut", "set_ub_nolattice"])
+        prov = rng.choice(["none", "set_u", "set_ub", "ub_then_lattice", "calc_ub", "miscut", "set_ub_nolattice", "set_ub_othercell", "set_u_sheared"])
         if prov == "ub_then_lattice":
             ub.set_ub((rot_from_rotvec([rng.uniform(-1, 1) for _ in range(3)]) * rng.uniform(0.9, 1.7)).tolist())
         if lat is not None and prov != "set_ub_nolattice":
@@ -76,6 +76,12 @@ def gen_state(rng):
                 ub.set_u(rot_from_rotvec([rng.uniform(-2, 2) for _ in range(3)]))
             elif prov == "set_ub":
                 ub.set_ub(rot_from_rotvec([rng.uniform(-2, 2) for _ in range(3)]) @ np.asarray(ub.crystal.B) * rng.uniform(0.8, 1.2))
+            elif prov == "set_ub_othercell":
+                # a UB imported from a refinement of a slightly different cell: the U the calculation stores is then not a rotation
+                M = np.asarray(ub.crystal.B, float) @ np.diag([1.004, 0.993, 1.009]) + np.array([[0, 0.01, 0], [0, 0, -0.008], [0, 0, 0]])
+                ub.set_ub(rot_from_rotvec([rng.uniform(-2, 2) for _ in range(3)]) @ M)
+            elif prov == "set_u_sheared":
+                ub.set_u(rot_from_rotvec([rng.uniform(-2, 2) for _ in range(3)]) @ (np.eye(3) + np.array([[0, 0.02, 0], [0, 0, 0.01], [0, 0, 0]])))
             elif prov == "calc_ub":
                 try:
                     ub.calc_ub()
@@ -347,7 +353,10 @@ def oracle(ctx, widen=1):
     n = ctx.scale(120, 4000) * widen
     kinds = set()
     tmpdir = tempfile.mkdtemp(prefix="c14_")
+    os.makedirs(os.path.join(tmpdir, "sub"))
+    cwd0 = os.getcwd()
     try:
+        os.chdir(tmpdir)
         for i in range(n):
             hc, desc = gen_state(ctx.rng)
             kinds.add(desc)
@@ -367,7 +376,8 @@ def oracle(ctx, widen=1):
                         routes.append(("fromdict", HklCalculation.fromdict(d)))
                         routes.append(("json+fromdict", HklCalculation.fromdict(json.loads(text))))
                         routes.append(("pickle", pickle.loads(pickle.dumps(hc))))
-                        fn = os.path.join(tmpdir, "ub.pkl")
+                        # the same file name is used again and again, as a session file is: absolute, relative to the working directory, or not normalised
+                        fn = [os.path.join(tmpdir, "ub.pkl"), "ub.pkl", os.path.join(".", "sub", "..", "ub2.pkl")][i % 3]
                         hc.ubcalc.pickle(fn)
                         routes.append(("UBCalculation.pickle/load", HklCalculation(UBCalculation.load(fn), pickle.loads(pickle.dumps(hc.constraints)))))
                         routes.append(("ub.fromdict", HklCalculation(UBCalculation.fromdict(json.loads(json.dumps(hc.ubcalc.asdict))), type(hc.constraints)(json.loads(json.dumps(hc.constraints.asdict))))))
@@ -386,6 +396,7 @@ def oracle(ctx, widen=1):
                               {"kind": "serial-roundtrip", "what": bad.split(":")[0][:40]})
     finally:
         import shutil
+        os.chdir(cwd0)
         shutil.rmtree(tmpdir, ignore_errors=True)
     ctx.stream("oracle:serial-roundtrip", n, len(kinds))
 
